@@ -26,7 +26,8 @@ def run(ctx, report):
     report.section("WebVTT lang option", webvtt_lang, ctx, report)
     report.section("SAMI neighbours", sami_neighbours, ctx, report)
     report.section("argument order", argument_order, ctx, report)
-    report.section("label stores", label_stores, ctx, report)
+    report.structural_section("label stores (shape)", "R-DOC-LANGS on the folded documents of the markup writers (every language under its "
+                              "own xml:lang / class, in order)", label_stores, ctx, report)
     report.section("SAMI language classes", sami_language_classes, ctx, report)
     report.section("SAMI paragraph language", sami_paragraph_language, ctx, report)
     from . import markup_writer_fold
